@@ -1,10 +1,26 @@
-//! C01 probe (v0)
-use oxiharness::*;
+//! C01 — reading any byte sequence never crashes, hangs or exhausts memory.
+//!
+//! Two streams of requests:
+//!  * KERNEL requests (`a85`, `pred`, `lex`, `obj`, `rep`, `xrs`, `xref`, `objstm`, `stmlen`, `rot`,
+//!    `cmapoff`, `label`, `rc4`, `prev`, `tree`, `rtel`): each reaches one modelled kernel through a
+//!    PUBLIC API of the crate; the Lean model predicts the answer (value / err / panic kind / hang).
+//!  * EXPLORATION requests (`explore`, `xfile`, `content`): whole-reader navigation of generated
+//!    skeletons and mutated files; the model makes no prediction, only the oracle (crash / hang /
+//!    memory) judges them.  This part is exploration, not proof.
 use oxidize_pdf::parser::content::ContentParser;
 use oxidize_pdf::parser::lexer::{Lexer, Token};
-use oxidize_pdf::parser::objects::{PdfDictionary, PdfName, PdfObject, PdfStream};
+use oxidize_pdf::parser::object_stream::ObjectStream;
+use oxidize_pdf::parser::objects::{PdfArray, PdfDictionary, PdfName, PdfObject, PdfStream};
+use oxidize_pdf::parser::page_tree::PageTree;
+use oxidize_pdf::parser::xref::XRefTable;
+use oxidize_pdf::parser::xref_stream::{XRefEntry as XsEntry, XRefStream};
 use oxidize_pdf::parser::{ParseOptions, PdfDocument, PdfReader};
-use std::io::Cursor;
+use oxiharness::*;
+use std::io::{BufReader, Cursor};
+
+// ------------------------------------------------------------------------------------------------
+// helpers
+// ------------------------------------------------------------------------------------------------
 
 fn preset(s: &str) -> Option<ParseOptions> {
     Some(match s {
@@ -16,16 +32,201 @@ fn preset(s: &str) -> Option<ParseOptions> {
         _ => return None,
     })
 }
-
-fn errc<E: std::fmt::Debug>(e: &E) -> String {
-    let s = format!("{:?}", e);
-    let head: String = s.chars().take_while(|c| c.is_ascii_alphanumeric()).collect();
-    format!("err:{}", head)
-}
+const PRESETS: [&str; 5] = ["strict", "default", "tolerant", "lenient", "skip"];
 
 fn name(s: &str) -> PdfObject {
     PdfObject::Name(PdfName(s.to_string()))
 }
+
+fn int_or_absent(s: &str) -> Result<Option<i64>, ()> {
+    if s == "_" {
+        Ok(None)
+    } else {
+        s.parse::<i64>().map(Some).map_err(|_| ())
+    }
+}
+
+/// Run `f` on a fresh 8 MiB thread (the size of a main thread's stack) whose lower part was painted
+/// beforehand; returns the answer and the stack class: `s` = at most 1 MiB of stack was touched,
+/// `D` = more.  (Coarse on purpose: the model predicts the class from its call-depth counter and the
+/// generator keeps away from the band where frame sizes would matter.)
+fn with_stack_class<F: FnOnce() -> String + Send + 'static>(f: F) -> String {
+    const S: usize = 8 << 20;
+    const PAINT: usize = 2 << 20; // painted window below the probe frame
+    const SHALLOW: usize = 1 << 20;
+    const PAT: u8 = 0xA5;
+    let h = std::thread::Builder::new()
+        .stack_size(S)
+        .spawn(move || {
+            let marker = 0u8;
+            let top = (&marker as *const u8 as usize) & !7usize;
+            let low = top - PAINT;
+            let lim = top - 4096;
+            unsafe { std::ptr::write_bytes(low as *mut u8, PAT, lim - low) };
+            let r = match std::panic::catch_unwind(std::panic::AssertUnwindSafe(f)) {
+                Ok(a) => a,
+                Err(e) => {
+                    let msg = if let Some(s) = e.downcast_ref::<&str>() {
+                        s.to_string()
+                    } else if let Some(s) = e.downcast_ref::<String>() {
+                        s.clone()
+                    } else {
+                        "?".into()
+                    };
+                    return format!("panic:{}", msg);
+                }
+            };
+            // lowest dirty probe (one probe per 512 bytes)
+            let mut q = low;
+            while q < lim {
+                let v = unsafe { std::ptr::read_volatile(q as *const u64) };
+                if v != 0xA5A5_A5A5_A5A5_A5A5 {
+                    break;
+                }
+                q += 512;
+            }
+            let used = top - q;
+            format!("{} {}", r, if used <= SHALLOW { "s" } else { "D" })
+        })
+        .expect("spawn probe thread");
+    match h.join() {
+        Ok(s) => s,
+        Err(_) => "panic:probe-thread".into(),
+    }
+}
+
+fn chars_hex(s: &str) -> String {
+    let v: Vec<u8> = s.chars().map(|c| (c as u32).min(255) as u8).collect();
+    hex(&v)
+}
+
+fn tok_str(t: &Token) -> String {
+    match t {
+        Token::Boolean(b) => format!("B{}", *b as u8),
+        Token::Integer(i) => format!("I{}", i),
+        Token::Real(_) => "F".into(),
+        Token::String(s) => format!("S{}", hex(s)),
+        Token::Name(n) => format!("N{}", chars_hex(n)),
+        Token::ArrayStart => "[".into(),
+        Token::ArrayEnd => "]".into(),
+        Token::DictStart => "<<".into(),
+        Token::DictEnd => ">>".into(),
+        Token::Stream => "stream".into(),
+        Token::EndStream => "endstream".into(),
+        Token::Obj => "obj".into(),
+        Token::EndObj => "endobj".into(),
+        Token::StartXRef => "startxref".into(),
+        Token::Reference(a, b) => format!("r{}.{}", a, b),
+        Token::Null => "Z".into(),
+        Token::Comment(_) => "C".into(),
+        Token::Eof => "E".into(),
+    }
+}
+
+fn obj_str(o: &PdfObject) -> String {
+    match o {
+        PdfObject::Null => "Z".into(),
+        PdfObject::Boolean(b) => format!("B{}", *b as u8),
+        PdfObject::Integer(i) => format!("I{}", i),
+        PdfObject::Real(_) => "F".into(),
+        PdfObject::String(s) => format!("S{}", hex(s.as_bytes())),
+        PdfObject::Name(n) => format!("N{}", chars_hex(n.as_str())),
+        PdfObject::Array(a) => format!("[{}]", a.0.iter().map(obj_str).collect::<Vec<_>>().join(",")),
+        PdfObject::Dictionary(d) => {
+            let mut kv: Vec<(Vec<u32>, String)> = d
+                .0
+                .iter()
+                .map(|(k, v)| (k.as_str().chars().map(|c| c as u32).collect(), format!("{}:{}", chars_hex(k.as_str()), obj_str(v))))
+                .collect();
+            kv.sort();
+            format!("<{}>", kv.into_iter().map(|x| x.1).collect::<Vec<_>>().join(";"))
+        }
+        PdfObject::Stream(_) => "STREAM".into(),
+        PdfObject::Reference(a, b) => format!("r{}.{}", a, b),
+    }
+}
+
+fn lex_all(data: Vec<u8>, o: ParseOptions) -> String {
+    let mut lx = Lexer::new_with_options(Cursor::new(data), o);
+    let mut out: Vec<String> = vec![];
+    loop {
+        match lx.next_token() {
+            Ok(Token::Eof) => {
+                out.push("E".into());
+                break;
+            }
+            Ok(t) => out.push(tok_str(&t)),
+            Err(_) => {
+                out.push("err".into());
+                break;
+            }
+        }
+    }
+    out.join(",")
+}
+
+fn parse_obj(data: Vec<u8>, o: ParseOptions) -> String {
+    let mut lx = Lexer::new_with_options(Cursor::new(data), o.clone());
+    match PdfObject::parse_with_options(&mut lx, &o) {
+        Ok(v) => obj_str(&v),
+        Err(_) => "err".into(),
+    }
+}
+
+fn rep_bytes(prefix: &[u8], unit: &[u8], n: usize, suffix: &[u8]) -> Vec<u8> {
+    let mut v = Vec::with_capacity(prefix.len() + unit.len() * n + suffix.len());
+    v.extend_from_slice(prefix);
+    for _ in 0..n {
+        v.extend_from_slice(unit);
+    }
+    v.extend_from_slice(suffix);
+    v
+}
+
+// ------------------------------------------------------------------------------------------------
+// skeleton files
+// ------------------------------------------------------------------------------------------------
+
+/// header + `startxref` block placed BEFORE the cross-reference section (the reader only looks for
+/// the last `startxref` in the final 1024 bytes), then `xref\n` + `tail`
+fn file_with_xref_tail(tail: &[u8]) -> Vec<u8> {
+    let mut f = b"%PDF-1.4\n".to_vec();
+    // offset of `xref` = len(header) + len("startxref\nNN\n%%EOF\n")
+    let off = f.len() + "startxref\n".len() + 3 + "%%EOF\n".len();
+    f.extend_from_slice(format!("startxref\n{:02}\n%%EOF\n", off).as_bytes());
+    assert_eq!(f.len(), off);
+    f.extend_from_slice(b"xref\n");
+    f.extend_from_slice(tail);
+    f
+}
+
+struct Pdf {
+    objs: Vec<(u32, Vec<u8>)>,
+}
+
+impl Pdf {
+    fn classic(&self, trailer_extra: &str, size: i64) -> Vec<u8> {
+        let mut f = b"%PDF-1.4\n%\xE2\xE3\xCF\xD3\n".to_vec();
+        let mut offs = vec![];
+        for (n, body) in &self.objs {
+            offs.push((*n, f.len()));
+            f.extend_from_slice(format!("{} 0 obj\n", n).as_bytes());
+            f.extend_from_slice(body);
+            f.extend_from_slice(b"\nendobj\n");
+        }
+        let xoff = f.len();
+        f.extend_from_slice(b"xref\n0 1\n0000000000 65535 f \n");
+        for (n, o) in &offs {
+            f.extend_from_slice(format!("{} 1\n{:010} 00000 n \n", n, o).as_bytes());
+        }
+        f.extend_from_slice(format!("trailer\n<< /Size {} /Root 1 0 R {} >>\nstartxref\n{}\n%%EOF\n", size, trailer_extra, xoff).as_bytes());
+        f
+    }
+}
+
+// ------------------------------------------------------------------------------------------------
+// run
+// ------------------------------------------------------------------------------------------------
 
 fn run(req: &str) -> String {
     let p: Vec<&str> = req.split(' ').collect();
@@ -34,108 +235,431 @@ fn run(req: &str) -> String {
             let Some(data) = unhex(h) else { return "bad-request".into() };
             let mut dict = PdfDictionary::new();
             dict.insert("Filter".into(), name("ASCII85Decode"));
-            let s = PdfStream { dict, data };
-            match s.decode(&ParseOptions::default()) {
+            match (PdfStream { dict, data }).decode(&ParseOptions::default()) {
                 Ok(v) => format!("ok:{}", hex(&v)),
-                Err(e) => errc(&e),
+                Err(_) => "err".into(),
             }
         }
         ["pred", pr, cols, colors, bpc, h] => {
             let Some(data) = unhex(h) else { return "bad-request".into() };
             let mut parms = PdfDictionary::new();
             for (k, v) in [("Predictor", pr), ("Columns", cols), ("Colors", colors), ("BitsPerComponent", bpc)] {
-                if *v != "_" {
-                    let Ok(i) = v.parse::<i64>() else { return "bad-request".into() };
-                    parms.insert(k.into(), PdfObject::Integer(i));
+                match int_or_absent(v) {
+                    Ok(Some(i)) => parms.insert(k.into(), PdfObject::Integer(i)),
+                    Ok(None) => {}
+                    Err(_) => return "bad-request".into(),
                 }
             }
             let mut dict = PdfDictionary::new();
             dict.insert("Filter".into(), name("ASCIIHexDecode"));
             dict.insert("DecodeParms".into(), PdfObject::Dictionary(parms));
-            let s = PdfStream { dict, data: hex(&data).replace('-', "").into_bytes() };
-            match s.decode(&ParseOptions::default()) {
+            let enc: String = data.iter().map(|b| format!("{:02x}", b)).collect();
+            match (PdfStream { dict, data: enc.into_bytes() }).decode(&ParseOptions::default()) {
                 Ok(v) => format!("ok:{}", hex(&v)),
-                Err(e) => errc(&e),
+                Err(_) => "err".into(),
             }
         }
         ["lex", pre, h] => {
             let (Some(o), Some(data)) = (preset(pre), unhex(h)) else { return "bad-request".into() };
-            let mut lx = Lexer::new_with_options(Cursor::new(data), o);
-            let mut n = 0usize;
-            loop {
-                match lx.next_token() {
-                    Ok(Token::Eof) => return format!("ok:{}", n),
-                    Ok(_) => n += 1,
-                    Err(e) => return format!("{}@{}", errc(&e), n),
-                }
-            }
+            with_stack_class(move || lex_all(data, o))
         }
         ["obj", pre, h] => {
             let (Some(o), Some(data)) = (preset(pre), unhex(h)) else { return "bad-request".into() };
-            let mut lx = Lexer::new_with_options(Cursor::new(data), o.clone());
-            match PdfObject::parse_with_options(&mut lx, &o) {
-                Ok(_) => "ok".into(),
-                Err(e) => errc(&e),
-            }
+            with_stack_class(move || parse_obj(data, o))
         }
         ["content", h] => {
             let Some(data) = unhex(h) else { return "bad-request".into() };
-            match ContentParser::parse(&data) {
-                Ok(v) => format!("ok:{}", v.len()),
-                Err(e) => errc(&e),
-            }
+            with_stack_class(move || match ContentParser::parse(&data) {
+                Ok(_) => "ok".into(),
+                Err(_) => "err".into(),
+            })
         }
-        ["rep", kind, pre, byte, n] => {
-            // repeated byte shapes without huge request lines
-            let (Some(o), Ok(b), Ok(n)) = (preset(pre), u8::from_str_radix(byte, 16), n.parse::<usize>()) else { return "bad-request".into() };
-            let data = vec![b; n];
+        ["rep", kind, pre, pfx, unit, n, sfx] => {
+            let (Some(o), Some(pfx), Some(unit), Ok(n), Some(sfx)) = (preset(pre), unhex(pfx), unhex(unit), n.parse::<usize>(), unhex(sfx)) else {
+                return "bad-request".into();
+            };
+            if n > 50_000_000 {
+                return "bad-request".into();
+            }
+            let data = rep_bytes(&pfx, &unit, n, &sfx);
             match *kind {
-                "lex" => {
+                "lex" => with_stack_class(move || {
                     let mut lx = Lexer::new_with_options(Cursor::new(data), o);
                     match lx.next_token() {
-                        Ok(_) => "ok".into(),
-                        Err(e) => errc(&e),
+                        Ok(t) => tok_str(&t),
+                        Err(_) => "err".into(),
                     }
-                }
-                "obj" => {
+                }),
+                "obj" => with_stack_class(move || {
                     let mut lx = Lexer::new_with_options(Cursor::new(data), o.clone());
                     match PdfObject::parse_with_options(&mut lx, &o) {
                         Ok(_) => "ok".into(),
-                        Err(e) => errc(&e),
+                        Err(_) => "err".into(),
                     }
-                }
-                "content" => match ContentParser::parse(&data) {
-                    Ok(v) => format!("ok:{}", v.len()),
-                    Err(e) => errc(&e),
-                },
+                }),
+                "content" => with_stack_class(move || match ContentParser::parse(&data) {
+                    Ok(_) => "ok".into(),
+                    Err(_) => "err".into(),
+                }),
                 _ => "bad-request".into(),
             }
         }
-        ["open", pre, h] => {
+        ["xrs", w, idx, size, h] => {
+            let Some(data) = unhex(h) else { return "bad-request".into() };
+            let ints = |s: &str| -> Option<Vec<i64>> {
+                if s == "." {
+                    Some(vec![])
+                } else {
+                    s.split(',').map(|x| x.parse::<i64>().ok()).collect()
+                }
+            };
+            let Some(w) = ints(w) else { return "bad-request".into() };
+            let mut dict = PdfDictionary::new();
+            dict.insert("W".into(), PdfObject::Array(PdfArray(w.into_iter().map(PdfObject::Integer).collect())));
+            if *idx != "_" {
+                let Some(ix) = ints(idx) else { return "bad-request".into() };
+                dict.insert("Index".into(), PdfObject::Array(PdfArray(ix.into_iter().map(PdfObject::Integer).collect())));
+            }
+            match int_or_absent(size) {
+                Ok(Some(s)) => dict.insert("Size".into(), PdfObject::Integer(s)),
+                Ok(None) => {}
+                Err(_) => return "bad-request".into(),
+            }
+            let mut cur = Cursor::new(Vec::<u8>::new());
+            let xs = match XRefStream::parse(&mut cur, dict, data, &ParseOptions::default()) {
+                Ok(x) => x,
+                Err(_) => return "err".into(),
+            };
+            match xs.to_xref_entries() {
+                Ok(es) => {
+                    let v: Vec<String> = es
+                        .iter()
+                        .map(|(n, e)| match e {
+                            XsEntry::Free { next_free_object, generation } => format!("{}.0.{}.{}", n, next_free_object, generation),
+                            XsEntry::InUse { offset, generation } => format!("{}.1.{}.{}", n, offset, generation),
+                            XsEntry::Compressed { stream_object_number, index_within_stream } => format!("{}.2.{}.{}", n, stream_object_number, index_within_stream),
+                        })
+                        .collect();
+                    format!("ok:{}", if v.is_empty() { ".".into() } else { v.join(",") })
+                }
+                Err(_) => "err".into(),
+            }
+        }
+        ["xref", lines] => {
+            // lines: hex fields separated by `/`; every line is terminated by LF in the file
+            let mut tail = vec![];
+            if *lines != "." {
+                for l in lines.split('/') {
+                    let Some(b) = unhex(l) else { return "bad-request".into() };
+                    tail.extend_from_slice(&b);
+                    tail.push(b'\n');
+                }
+            }
+            let f = file_with_xref_tail(&tail);
+            let mut r = BufReader::new(Cursor::new(f));
+            match XRefTable::parse_with_options(&mut r, &ParseOptions::strict()) {
+                Ok(t) => {
+                    let mut ks: Vec<u32> = t.iter().map(|(k, _)| *k).collect();
+                    ks.sort();
+                    format!("ok:{}", if ks.is_empty() { ".".into() } else { ks.iter().map(|k| k.to_string()).collect::<Vec<_>>().join(",") })
+                }
+                Err(_) => "err".into(),
+            }
+        }
+        ["objstm", n, first, h] => {
+            let (Ok(n), Ok(first), Some(data)) = (n.parse::<i64>(), first.parse::<i64>(), unhex(h)) else { return "bad-request".into() };
+            let mut dict = PdfDictionary::new();
+            dict.insert("N".into(), PdfObject::Integer(n));
+            dict.insert("First".into(), PdfObject::Integer(first));
+            match ObjectStream::parse(PdfStream { dict, data }, &ParseOptions::default()) {
+                Ok(os) => {
+                    let mut v: Vec<(u32, String)> = os.objects().iter().map(|(k, o)| (*k, obj_str(o))).collect();
+                    v.sort();
+                    format!("ok:{}", if v.is_empty() { ".".into() } else { v.iter().map(|(k, s)| format!("{}={}", k, s)).collect::<Vec<_>>().join("|") })
+                }
+                Err(_) => "err".into(),
+            }
+        }
+        ["stmlen", len, avail] => {
+            let (Ok(len), Ok(avail)) = (len.parse::<i64>(), avail.parse::<usize>()) else { return "bad-request".into() };
+            if avail > 1 << 20 {
+                return "bad-request".into();
+            }
+            let mut data = format!("<< /Length {} >>\nstream\n", len).into_bytes();
+            data.extend(std::iter::repeat(b'x').take(avail));
+            data.extend_from_slice(b"\nendstream");
+            let o = ParseOptions::strict();
+            let mut lx = Lexer::new_with_options(Cursor::new(data), o.clone());
+            match PdfObject::parse_with_options(&mut lx, &o) {
+                Ok(PdfObject::Stream(s)) => format!("ok:{}", s.data.len()),
+                Ok(_) => "ok:not-a-stream".into(),
+                Err(_) => "err".into(),
+            }
+        }
+        ["rot", rotate, angle] => run_rot(rotate, angle),
+        ["cmapoff", code, start] => {
+            let (Some(code), Some(start)) = (unhex(code), unhex(start)) else { return "bad-request".into() };
+            if code.is_empty() || code.len() != start.len() {
+                return "bad-request".into();
+            }
+            // bfrange <start> <start with last byte FF ...> : use end = FF..FF of the same length
+            let hx = |b: &[u8]| b.iter().map(|x| format!("{:02X}", x)).collect::<String>();
+            let end = vec![0xFFu8; start.len()];
+            let src = format!(
+                "/CIDInit /ProcSet findresource begin\n12 dict begin\nbegincmap\n1 begincodespacerange\n<{}> <{}>\nendcodespacerange\n1 beginbfrange\n<{}> <{}> <0041>\nendbfrange\nendcmap\n",
+                hx(&vec![0u8; start.len()]),
+                hx(&end),
+                hx(&start),
+                hx(&end)
+            );
+            match oxidize_pdf::text::cmap::CMap::parse(src.as_bytes()) {
+                Ok(cm) => {
+                    let _ = cm.map(&code);
+                    "ok".into()
+                }
+                Err(_) => "err".into(),
+            }
+        }
+        ["label", start, offset] => {
+            let (Ok(start), Ok(offset)) = (start.parse::<i64>(), offset.parse::<u32>()) else { return "bad-request".into() };
+            use oxidize_pdf::objects::{Dictionary, Object};
+            let mut ld = Dictionary::new();
+            ld.set("S", Object::Name("D".to_string()));
+            ld.set("St", Object::Integer(start));
+            let mut d = Dictionary::new();
+            d.set("Nums", Object::Array(vec![Object::Integer(0), Object::Dictionary(ld)]));
+            match oxidize_pdf::PageLabelTree::from_dict(&d) {
+                Some(t) => match t.get_label(offset) {
+                    Some(s) => format!("ok:{}", s),
+                    None => "ok:none".into(),
+                },
+                None => "err".into(),
+            }
+        }
+        ["rc4", key] => {
+            let Some(key) = unhex(key) else { return "bad-request".into() };
+            let mut c = oxidize_pdf::encryption::Rc4::new(&oxidize_pdf::encryption::Rc4Key::new(key));
+            let _ = c.process(&[0u8; 4]);
+            "ok".into()
+        }
+        ["prev", start, spec] => run_prev(start, spec),
+        ["tree", spec] => run_tree(spec),
+        ["explore", pre, h] => {
             let (Some(o), Some(data)) = (preset(pre), unhex(h)) else { return "bad-request".into() };
+            open_nav(data, o)
+        }
+        ["xfile", pre, path, muts] => {
+            let Some(o) = preset(pre) else { return "bad-request".into() };
+            let Ok(mut data) = std::fs::read(path) else { return "bad-request".into() };
+            if !apply_muts(&mut data, muts) {
+                return "bad-request".into();
+            }
             open_nav(data, o)
         }
         _ => "bad-request".into(),
     }
 }
 
-fn open_nav(data: Vec<u8>, o: ParseOptions) -> String {
-    let r = match PdfReader::new_with_options(Cursor::new(data), o) {
+/// `/Rotate r` page, rotated by `angle` through the public page-rotation operation
+fn run_rot(rotate: &str, angle: &str) -> String {
+    use oxidize_pdf::operations::rotate::{PageRotator, RotateOptions, RotationAngle};
+    use oxidize_pdf::operations::PageRange;
+    let (Ok(rotate), Ok(angle)) = (rotate.parse::<i64>(), angle.parse::<i32>()) else { return "bad-request".into() };
+    let Ok(ang) = RotationAngle::from_degrees(angle) else { return "bad-request".into() };
+    let pdf = Pdf {
+        objs: vec![
+            (1, b"<< /Type /Catalog /Pages 2 0 R >>".to_vec()),
+            (2, b"<< /Type /Pages /Kids [3 0 R] /Count 1 >>".to_vec()),
+            (3, format!("<< /Type /Page /Parent 2 0 R /MediaBox [0 0 200 200] /Rotate {} >>", rotate).into_bytes()),
+        ],
+    };
+    let bytes = pdf.classic("", 4);
+    // tmpfs when there is one: file creation on a loaded disk can stall for seconds
+    let dir = if std::path::Path::new("/dev/shm").is_dir() { std::path::PathBuf::from("/dev/shm") } else { std::env::temp_dir() };
+    let path = dir.join(format!("oxiverif-c01-rot-{}.pdf", std::process::id()));
+    if std::fs::write(&path, &bytes).is_err() {
+        return "bad-request".into();
+    }
+    let r = match PdfReader::open(&path) {
         Ok(r) => r,
-        Err(e) => return format!("open-{}", errc(&e)),
+        Err(_) => return "err:open".into(),
     };
     let doc = PdfDocument::new(r);
+    let mut rot = PageRotator::new(doc);
+    let opts = RotateOptions { pages: PageRange::All, angle: ang, preserve_page_size: false };
+    let res = match rot.rotate(&opts) {
+        Ok(_) => "ok".to_string(),
+        Err(_) => "err".to_string(),
+    };
+    let _ = std::fs::remove_file(&path);
+    res
+}
+
+/// `spec` = per section `p<index>` (Prev → that section), `x` (Prev → offset past EOF), `h` (Prev →
+/// offset 0, the header) or `_` (no Prev), comma separated; `start` = index of the newest section
+fn run_prev(start: &str, spec: &str) -> String {
+    let Ok(start) = start.parse::<usize>() else { return "bad-request".into() };
+    let secs: Vec<&str> = spec.split(',').collect();
+    if start >= secs.len() || secs.len() > 40 {
+        return "bad-request".into();
+    }
+    // fixed-width sections so that offsets are known in advance
+    let header = b"%PDF-1.4\n".to_vec();
+    let sec_len = |_: usize| -> usize { "xref\n".len() + "100 1\n".len() + 20 + "trailer\n".len() + "<< /Size 1000 /Prev 0000000000 >>\n".len() + "startxref\n0\n".len() };
+    let off = |i: usize| header.len() + (0..i).map(sec_len).sum::<usize>();
+    let total = off(secs.len());
+    let mut f = header.clone();
+    for (i, s) in secs.iter().enumerate() {
+        let prev: Option<usize> = if *s == "_" {
+            None
+        } else if *s == "x" {
+            Some(total + 5000)
+        } else if *s == "h" {
+            Some(0)
+        } else if let Some(r) = s.strip_prefix('p') {
+            match r.parse::<usize>() {
+                Ok(j) if j < secs.len() => Some(off(j)),
+                _ => return "bad-request".into(),
+            }
+        } else {
+            return "bad-request".into();
+        };
+        f.extend_from_slice(format!("xref\n{:03} 1\n0000000000 00000 n \ntrailer\n", 100 + i).as_bytes());
+        match prev {
+            Some(p) => f.extend_from_slice(format!("<< /Size 1000 /Prev {:010} >>\n", p).as_bytes()),
+            None => f.extend_from_slice(format!("<< /Size 1000 {:>16} >>\n", "").as_bytes()),
+        }
+        // a valid token after the dictionary (the object parser looks one token ahead)
+        f.extend_from_slice(b"startxref\n0\n");
+        assert_eq!(f.len(), off(i + 1));
+    }
+    f.extend_from_slice(format!("startxref\n{}\n%%EOF\n", off(start)).as_bytes());
+    let mut r = BufReader::new(Cursor::new(f));
+    match XRefTable::parse_with_options(&mut r, &ParseOptions::strict()) {
+        Ok(t) => {
+            let mut ks: Vec<u32> = t.iter().map(|(k, _)| *k - 100).collect();
+            ks.sort();
+            format!("ok:{}", ks.iter().map(|k| k.to_string()).collect::<Vec<_>>().join(","))
+        }
+        Err(_) => "err".into(),
+    }
+}
+
+/// `spec` = `<rootkids>;<node>;<node>…` ; node i is object 10+i ; node = `P` | `O` | `N<k.k.k>` (kids,
+/// indices; an index ≥ number of nodes is a dangling reference) ; rootkids = `k.k.k`
+fn run_tree(spec: &str) -> String {
+    let parts: Vec<&str> = spec.split(';').collect();
+    if parts.is_empty() || parts.len() > 60 {
+        return "bad-request".into();
+    }
+    let kids_of = |s: &str| -> Option<Vec<usize>> {
+        if s.is_empty() {
+            return Some(vec![]);
+        }
+        s.split('.').map(|x| x.parse::<usize>().ok()).collect()
+    };
+    let refs = |ks: &[usize]| ks.iter().map(|k| format!("{} 0 R", 10 + k)).collect::<Vec<_>>().join(" ");
+    let Some(root_kids) = kids_of(parts[0]) else { return "bad-request".into() };
+    let mut objs = vec![
+        (1u32, b"<< /Type /Catalog /Pages 2 0 R >>".to_vec()),
+        (2u32, format!("<< /Type /Pages /Kids [{}] /Count {} >>", refs(&root_kids), root_kids.len()).into_bytes()),
+    ];
+    for (i, n) in parts[1..].iter().enumerate() {
+        let body = if *n == "P" {
+            "<< /Type /Page /Parent 2 0 R /MediaBox [0 0 10 10] >>".to_string()
+        } else if *n == "O" {
+            "<< /Foo 1 >>".to_string()
+        } else if let Some(k) = n.strip_prefix('N') {
+            let Some(ks) = kids_of(k) else { return "bad-request".into() };
+            format!("<< /Type /Pages /Parent 2 0 R /Kids [{}] /Count {} >>", refs(&ks), ks.len())
+        } else {
+            return "bad-request".into();
+        };
+        objs.push((10 + i as u32, body.into_bytes()));
+    }
+    let bytes = Pdf { objs }.classic("", 200);
+    let mut r = match PdfReader::new_with_options(Cursor::new(bytes), ParseOptions::strict()) {
+        Ok(r) => r,
+        Err(_) => return "err:open".into(),
+    };
+    let pages = match r.pages() {
+        Ok(p) => p.clone(),
+        Err(_) => return "err:pages".into(),
+    };
+    match PageTree::flatten_page_tree(&mut r, &pages) {
+        Ok(v) => format!("ok:{}", if v.is_empty() { ".".into() } else { v.iter().map(|(n, _)| (n - 10).to_string()).collect::<Vec<_>>().join(",") }),
+        Err(_) => "err".into(),
+    }
+}
+
+/// mutations: `.` none | `b<off>=<hex byte>` | `n<k>=<int>` (k-th decimal integer token replaced) |
+/// `t<len>` truncate, `+`-separated
+fn apply_muts(data: &mut Vec<u8>, muts: &str) -> bool {
+    if muts == "." {
+        return true;
+    }
+    for m in muts.split('+') {
+        if let Some(r) = m.strip_prefix('b') {
+            let Some((o, b)) = r.split_once('=') else { return false };
+            let (Ok(o), Ok(b)) = (o.parse::<usize>(), u8::from_str_radix(b, 16)) else { return false };
+            if o < data.len() {
+                data[o] = b;
+            }
+        } else if let Some(r) = m.strip_prefix('t') {
+            let Ok(l) = r.parse::<usize>() else { return false };
+            data.truncate(l);
+        } else if let Some(r) = m.strip_prefix('n') {
+            let Some((k, v)) = r.split_once('=') else { return false };
+            let Ok(k) = k.parse::<usize>() else { return false };
+            // find the k-th maximal run of ASCII digits preceded by a non-alphanumeric byte
+            let mut i = 0;
+            let mut seen = 0;
+            let mut found = None;
+            while i < data.len() {
+                if data[i].is_ascii_digit() && (i == 0 || !data[i - 1].is_ascii_alphanumeric()) {
+                    let s = i;
+                    while i < data.len() && data[i].is_ascii_digit() {
+                        i += 1;
+                    }
+                    if seen == k {
+                        found = Some((s, i));
+                        break;
+                    }
+                    seen += 1;
+                } else {
+                    i += 1;
+                }
+            }
+            if let Some((s, e)) = found {
+                data.splice(s..e, v.bytes());
+            }
+        } else {
+            return false;
+        }
+    }
+    true
+}
+
+fn open_nav(data: Vec<u8>, o: ParseOptions) -> String {
+    let r = match PdfReader::new_with_options(Cursor::new(data), o.clone()) {
+        Ok(r) => r,
+        Err(_) => return "err:open".into(),
+    };
+    let doc = PdfDocument::new(r);
+    let _ = doc.version();
+    let _ = doc.metadata();
     let n = match doc.page_count() {
         Ok(n) => n,
-        Err(e) => return format!("count-{}", errc(&e)),
+        Err(_) => return "err:count".into(),
     };
     let mut okp = 0;
     let mut errs = 0;
-    for i in 0..n.min(8) {
+    for i in 0..n.min(6) {
         match doc.get_page(i) {
             Ok(page) => {
                 okp += 1;
                 let _ = doc.get_page_resources(&page);
+                let _ = doc.get_page_annotations(i);
                 match doc.get_page_content_streams(&page) {
                     Ok(cs) => {
                         for c in cs {
@@ -151,13 +675,780 @@ fn open_nav(data: Vec<u8>, o: ParseOptions) -> String {
             Err(_) => errs += 1,
         }
     }
-    format!("ok:pages={} got={} errs={}", n, okp, errs)
+    // decode every stream reachable by object number (bounded)
+    let mut streams = 0;
+    for num in 1..40u32 {
+        if let Ok(PdfObject::Stream(s)) = doc.get_object(num, 0) {
+            streams += 1;
+            let _ = s.decode(&o);
+            let _ = s.decode_with_limit(&o, 1 << 20);
+        }
+    }
+    format!("ok:pages={} got={} errs={} streams={}", n, okp, errs, streams)
 }
 
-fn gen(_rng: &mut Rng, _tier: Tier) -> Vec<Case> {
-    vec![]
+// ------------------------------------------------------------------------------------------------
+// generators
+// ------------------------------------------------------------------------------------------------
+
+const BT: [i64; 21] = [
+    i64::MIN,
+    -4294967297,
+    -2147483649,
+    -1,
+    0,
+    1,
+    7,
+    8,
+    255,
+    256,
+    65535,
+    65536,
+    65537,
+    2147483647,
+    2147483648,
+    2147483649,
+    4294967295,
+    4294967296,
+    4294967297,
+    i64::MAX,
+    -2147483648,
+];
+
+fn bt(rng: &mut Rng) -> i64 {
+    *rng.pick(&BT)
 }
 
+fn small_or_bt(rng: &mut Rng) -> i64 {
+    if rng.chance(1, 2) {
+        rng.range(0, 9)
+    } else {
+        bt(rng)
+    }
+}
+
+fn gen_a85(rng: &mut Rng, tier: Tier, cases: &mut Vec<Case>) {
+    let mut push = |b: Vec<u8>, tag: &str| cases.push(Case::new(format!("a85 {}", hex(&b)), format!("a85 {} nt", tag)));
+    // every first character × extreme / random rest : the group value crosses 2^32 between
+    // "s8W-!" (= 2^32-1) and "s8W-\""
+    for c0 in [b'!', b'"', b'r', b's', b't', b'u'] {
+        for rest in [&b"!!!!"[..], b"uuuu", b"8W-!", b"8W-\"", b"8W- ", b"8W,u"] {
+            let mut g = vec![c0];
+            g.extend_from_slice(rest);
+            let mut a = g.clone();
+            a.extend_from_slice(b"~>");
+            push(a, "group-boundary");
+            push(g.clone(), "group-noeod");
+            let mut b = b"<~".to_vec();
+            b.extend_from_slice(&g);
+            b.extend_from_slice(b"~>");
+            push(b, "group-prefixed");
+        }
+        // incomplete tails (padded with `u`)
+        for l in 0..4usize {
+            let mut t = vec![c0];
+            for _ in 0..l {
+                t.push(*rng.pick(&[b'!', b'u', b'8', b'W']));
+            }
+            let mut a = t.clone();
+            a.extend_from_slice(b"~>");
+            push(a, "tail");
+            push(t, "tail-noeod");
+        }
+    }
+    let n = if tier == Tier::Quick { 500 } else { 12000 };
+    for _ in 0..n {
+        let len = rng.below(14) as usize;
+        let mut b = vec![];
+        if rng.chance(1, 6) {
+            b.extend_from_slice(if rng.chance(1, 2) { b"<~" } else { b"<" });
+        }
+        for _ in 0..len {
+            let c = match rng.below(20) {
+                0 => b'z',
+                1 => *rng.pick(&[b' ', b'\n', b'\t', b'\r', 0x0c, 0x0b, 0]),
+                2 => *rng.pick(&[b'~', b'>', b'v', b'y', 0x7f, 0x80, 0xff]),
+                3..=6 => *rng.pick(&[b'r', b's', b't', b'u']),
+                _ => 33 + rng.below(85) as u8,
+            };
+            b.push(c);
+        }
+        if rng.chance(3, 4) {
+            b.extend_from_slice(b"~>");
+        }
+        push(b, "random");
+    }
+}
+
+fn gen_pred(rng: &mut Rng, tier: Tier, cases: &mut Vec<Case>) {
+    let mut push = |p: String, c: String, k: String, b: String, d: &[u8], tag: &str| {
+        cases.push(Case::new(format!("pred {} {} {} {} {}", p, c, k, b, hex(d)), format!("pred {} nt", tag)))
+    };
+    let s = |i: i64| i.to_string();
+    // boundary cube on /Columns /Colors /BitsPerComponent
+    let stride = if tier == Tier::Quick { 4 } else { 1 };
+    let mut idx = rng.below(stride) as usize;
+    for &cols in BT.iter() {
+        for &colors in BT.iter() {
+            for &bpc in BT.iter() {
+                idx += 1;
+                if idx % stride as usize != 0 {
+                    continue;
+                }
+                let d: &[u8] = if idx % 3 == 0 { &[0, 1] } else if idx % 3 == 1 { &[2, 7, 1, 9] } else { &[] };
+                push("12".into(), s(cols), s(colors), s(bpc), d, "cube");
+            }
+        }
+    }
+    // predictor value itself (cast to u32), absent keys
+    for &p in BT.iter().chain([2i64, 9, 10, 11, 15, 16, 4294967306, -4294967286].iter()) {
+        push(s(p), "2".into(), "_".into(), "_".into(), &[1, 5, 6, 2, 1, 1], "predictor-value");
+        push(s(p), "_".into(), "-1".into(), "_".into(), &[0, 5], "predictor-value");
+    }
+    // well-formed geometry, all five filter types, several rows
+    let n = if tier == Tier::Quick { 400 } else { 8000 };
+    for _ in 0..n {
+        let colors = 1 + rng.below(4) as i64;
+        let bpc = *rng.pick(&[1i64, 2, 4, 8, 16]);
+        let cols = 1 + rng.below(5) as i64;
+        let row_bytes = ((cols * colors * bpc + 7) / 8) as usize;
+        let rows = rng.below(4) as usize;
+        let mut d = vec![];
+        for _ in 0..rows {
+            d.push(if rng.chance(1, 12) { 5 + rng.below(250) as u8 } else { rng.below(5) as u8 });
+            d.extend(rng.bytes(row_bytes));
+        }
+        if rng.chance(1, 8) {
+            d.push(rng.below(5) as u8);
+        }
+        let p = *rng.pick(&[10i64, 11, 12, 13, 14, 15]);
+        let (c, k, b) = if rng.chance(1, 5) && colors == 1 && bpc == 8 { (s(cols), "_".to_string(), "_".to_string()) } else { (s(cols), s(colors), s(bpc)) };
+        push(s(p), c, k, b, &d, "rows");
+    }
+}
+
+fn rand_token_bytes(rng: &mut Rng, depth: u32) -> Vec<u8> {
+    match rng.below(if depth > 3 { 12 } else { 16 }) {
+        0 => b"null".to_vec(),
+        1 => (if rng.chance(1, 2) { &b"true"[..] } else { b"false" }).to_vec(),
+        2 => small_or_bt(rng).to_string().into_bytes(),
+        3 => {
+            // numbers around the i64 limits and malformed ones
+            rng.pick(&[
+                "9223372036854775807",
+                "9223372036854775808",
+                "-9223372036854775808",
+                "-9223372036854775809",
+                "+7",
+                "-",
+                "+",
+                "+.",
+                "1.",
+                ".5",
+                ".",
+                "1.2.3",
+                "1e5",
+                "1e",
+                "1E+",
+                "-.e1",
+                "00012",
+                "99999999999999999999999",
+                "1e400",
+                "--1",
+                "+-1",
+            ])
+            .as_bytes()
+            .to_vec()
+        }
+        4 => {
+            // literal string with escapes
+            let mut v = vec![b'('];
+            for _ in 0..rng.below(8) {
+                match rng.below(10) {
+                    0 => v.extend_from_slice(b"\\n"),
+                    1 => {
+                        v.push(b'\\');
+                        for _ in 0..1 + rng.below(4) {
+                            v.push(b'0' + rng.below(10) as u8);
+                        }
+                    }
+                    2 => v.extend_from_slice(b"\\777"),
+                    3 => v.extend_from_slice(b"(a)"),
+                    4 => v.extend_from_slice(b"\\("),
+                    5 => v.push(b'\\'),
+                    _ => v.push(32 + rng.below(90) as u8),
+                }
+            }
+            if rng.chance(9, 10) {
+                v.push(b')');
+            }
+            v
+        }
+        5 => {
+            let mut v = vec![b'<'];
+            for _ in 0..rng.below(7) {
+                v.push(*rng.pick(b"0123456789abcdefABCDEF \nxg"));
+            }
+            if rng.chance(9, 10) {
+                v.push(b'>');
+            }
+            v
+        }
+        6 => {
+            let mut v = vec![b'/'];
+            for _ in 0..rng.below(6) {
+                match rng.below(8) {
+                    0 => {
+                        v.push(b'#');
+                        v.push(*rng.pick(b"0123456789abcdefABCDEF+-g "));
+                        v.push(*rng.pick(b"0123456789abcdefABCDEF+-g/"));
+                    }
+                    1 => v.push(b'#'),
+                    _ => v.push(*rng.pick(b"ABCxyz019_.{}R;")),
+                }
+            }
+            v
+        }
+        7 => format!("{} {} R", rng.range(0, 12), rng.range(0, 3)).into_bytes(),
+        8 => format!("{} {} R", small_or_bt(rng), small_or_bt(rng)).into_bytes(),
+        9 => rng.pick(&["stream", "endstream", "obj", "endobj", "startxref", "R", "trailer", "nul", "tru", "f"]).as_bytes().to_vec(),
+        10 => (if rng.chance(1, 2) { &b"%c\n"[..] } else { b"% comment\r" }).to_vec(),
+        11 => vec![*rng.pick(&[b';', b'{', b'}', b')', b'>', b']', 0u8, 7, 0x0b, 0x80, 0x9f, 0xa0, 0xff, b'!', b'@', b'~'])],
+        12 | 13 => {
+            let mut v = vec![b'['];
+            for _ in 0..rng.below(4) {
+                v.push(b' ');
+                v.extend(rand_token_bytes(rng, depth + 1));
+            }
+            if rng.chance(9, 10) {
+                v.extend_from_slice(b" ]");
+            }
+            v
+        }
+        _ => {
+            let mut v = b"<<".to_vec();
+            for _ in 0..rng.below(4) {
+                v.extend_from_slice(b" /");
+                v.push(*rng.pick(b"ABCK"));
+                v.push(b' ');
+                v.extend(rand_token_bytes(rng, depth + 1));
+            }
+            if rng.chance(9, 10) {
+                v.extend_from_slice(b" >>");
+            }
+            v
+        }
+    }
+}
+
+fn gen_lex_obj(rng: &mut Rng, tier: Tier, cases: &mut Vec<Case>) {
+    let n = if tier == Tier::Quick { 700 } else { 14000 };
+    for i in 0..n {
+        let mut b = vec![];
+        for _ in 0..1 + rng.below(4) {
+            b.extend(rand_token_bytes(rng, 0));
+            b.push(*rng.pick(b"  \n\t\r"));
+        }
+        // a few byte mutations
+        if rng.chance(1, 3) && !b.is_empty() {
+            let k = rng.below(b.len() as u64) as usize;
+            b[k] = rng.next() as u8;
+        }
+        let pre = PRESETS[i % 5];
+        let kind = if i % 2 == 0 { "lex" } else { "obj" };
+        cases.push(Case::new(format!("{} {} {}", kind, pre, hex(&b)), format!("{} {} nt", kind, pre)));
+    }
+    // depth families: shallow (≤ 48) and deep (≥ 9000), see `with_stack_class`
+    let semis = hex(b";");
+    for (kind, pre, pfx, unit, sfx) in [
+        ("lex", "strict", "-", semis.as_str(), "-"),
+        ("lex", "default", "-", "07", "31"),
+        ("lex", "tolerant", "-", "7b", "31"),
+        ("lex", "skip", "-", "40", "31"),
+        ("obj", "default", "-", "5b", "-"),
+        ("obj", "strict", "-", "250a", "31"),
+        ("obj", "default", "-", "3c3c2f41", "-"),
+        ("obj", "default", "-", "5b", "5d"),
+        ("content", "default", "-", "3b", "-"),
+        ("content", "default", "-", "7d20", "71"),
+        ("content", "default", "-", "29", "-"),
+    ] {
+        for n in [0usize, 1, 2, 7, 48] {
+            cases.push(Case::new(format!("rep {} {} {} {} {} {}", kind, pre, pfx, unit, n, sfx), format!("rep {} shallow nt", kind)));
+        }
+        let deep: &[usize] = if tier == Tier::Quick { &[9000, 100000] } else { &[9000, 20000, 100000, 3000000] };
+        for n in deep {
+            cases.push(Case::new(format!("rep {} {} {} {} {} {}", kind, pre, pfx, unit, n, sfx), format!("rep {} deep nt", kind)));
+        }
+    }
+    // content streams (exploration: only the crash class is judged)
+    let n = if tier == Tier::Quick { 150 } else { 3000 };
+    for _ in 0..n {
+        let mut b = vec![];
+        for _ in 0..1 + rng.below(10) {
+            match rng.below(8) {
+                0 => b.extend_from_slice(b"BT /F1 12 Tf (x) Tj ET "),
+                1 => b.extend_from_slice(b"BI /W 1 /H 1 ID \x00\xff EI "),
+                2 => b.extend(rand_token_bytes(rng, 2)),
+                3 => b.extend_from_slice(b"; } { ) "),
+                4 => b.extend_from_slice(small_or_bt(rng).to_string().as_bytes()),
+                5 => b.extend_from_slice(b"q 1 0 0 1 0 0 cm Q "),
+                6 => b.extend_from_slice(b"[(a) -120 (b)] TJ "),
+                _ => b.extend(rng.bytes(3)),
+            }
+            b.push(b' ');
+        }
+        cases.push(Case::new(format!("content {}", hex(&b)), "content explore nt"));
+    }
+}
+
+fn gen_xrs(rng: &mut Rng, tier: Tier, cases: &mut Vec<Case>) {
+    let join = |v: &[i64]| if v.is_empty() { ".".to_string() } else { v.iter().map(|x| x.to_string()).collect::<Vec<_>>().join(",") };
+    let n = if tier == Tier::Quick { 700 } else { 14000 };
+    for i in 0..n {
+        let wlen = if rng.chance(1, 12) { rng.below(5) as usize } else { 3 };
+        let w: Vec<i64> = (0..wlen)
+            .map(|_| match rng.below(10) {
+                0 => bt(rng),
+                1 => 9,
+                2 => 8,
+                3 => 0,
+                _ => rng.range(0, 3),
+            })
+            .collect();
+        let idx: Option<Vec<i64>> = if rng.chance(2, 3) {
+            let k = rng.below(5) as usize;
+            Some((0..k).map(|j| if j % 2 == 0 { if rng.chance(1, 3) { bt(rng) } else { rng.range(0, 5) } } else if rng.chance(1, 4) { bt(rng) } else { rng.range(0, 4) }).collect())
+        } else {
+            None
+        };
+        let size = if rng.chance(4, 5) { Some(if rng.chance(1, 4) { bt(rng) } else { rng.range(0, 6) }) } else { None };
+        let es: i64 = w.iter().filter(|x| **x >= 0 && **x < 20).sum();
+        let dl = if es > 0 && rng.chance(3, 4) { (es as usize) * rng.below(5) as usize + if rng.chance(1, 6) { 1 } else { 0 } } else { rng.below(12) as usize };
+        let mut d = rng.bytes(dl);
+        // make the type field small most of the time
+        if es > 0 {
+            let mut o = 0;
+            while o < d.len() {
+                if rng.chance(5, 6) {
+                    let w0 = w[0].clamp(0, 20) as usize;
+                    for j in 0..w0.min(d.len() - o) {
+                        d[o + j] = if j + 1 == w0 { rng.below(4) as u8 } else { 0 };
+                    }
+                }
+                o += es as usize;
+            }
+        }
+        let req = format!("xrs {} {} {} {}", join(&w), idx.as_ref().map(|v| join(v)).unwrap_or("_".into()), size.map(|s| s.to_string()).unwrap_or("_".into()), hex(&d));
+        cases.push(Case::new(req, format!("xrs {} nt", if i % 2 == 0 { "a" } else { "b" })));
+    }
+    // directed: first + i crossing 2^32, width sums crossing 2^64
+    for (w, idx, d) in [
+        ("1,1,1", "4294967295,2", vec![1u8, 0, 0, 1, 0, 0]),
+        ("1,1,1", "4294967295,1", vec![1, 0, 0]),
+        ("1,1,1", "4294967294,2", vec![1, 0, 0, 1, 0, 0]),
+        ("1,1,1", "4294967295,2", vec![1, 0, 0]),
+        ("-1,1,1", "0,1", vec![1, 0, 0]),
+        ("-1,0,0", "0,1", vec![1, 0, 0]),
+        ("-1,1,0", "0,1", vec![1, 0, 0]),
+        ("9223372036854775807,9223372036854775807,2", "0,1", vec![1, 0, 0]),
+        ("9223372036854775807,9223372036854775807,1", "0,1", vec![1, 0, 0]),
+        ("9,9,9", "0,1", vec![0u8; 27]),
+        ("9,1,1", "0,1", vec![1, 0, 0, 0, 0, 0, 0, 0, 1, 7, 7]),
+        ("0,0,0", "0,1", vec![]),
+        ("0,1,0", "0,3", vec![5, 6, 7]),
+    ] {
+        cases.push(Case::new(format!("xrs {} {} 10 {}", w, idx, hex(&d)), "xrs directed nt"));
+    }
+}
+
+fn gen_xref(rng: &mut Rng, tier: Tier, cases: &mut Vec<Case>) {
+    let n = if tier == Tier::Quick { 700 } else { 14000 };
+    let entry = |rng: &mut Rng| -> Vec<u8> {
+        match rng.below(16) {
+            0 => b"0000000000 65535 f ".to_vec(),
+            1 => b"17 0 n".to_vec(),
+            2 => b"0000000017 00000n".to_vec(),
+            3 => b"0000000017  00000  n".to_vec(),
+            4 => b"000000000\xff 00000 n ".to_vec(),
+            5 => b"0000000000\xff00000 n ".to_vec(),
+            6 => b"0000000000 0000\xff n ".to_vec(),
+            7 => b"00000000\xff\xff 00000 n ".to_vec(),
+            8 => b"garbage line".to_vec(),
+            9 => b"% comment".to_vec(),
+            10 => b"0000000017 99999 n ".to_vec(),
+            11 => b"18446744073709551616 00000 n ".to_vec(),
+            12 => b"12 3 x".to_vec(),
+            13 => b"12 f".to_vec(),
+            14 => b"12".to_vec(),
+            _ => format!("{:010} {:05} {} ", rng.below(100000), rng.below(3), if rng.chance(4, 5) { "n" } else { "f" }).into_bytes(),
+        }
+    };
+    for i in 0..n {
+        let mut lines: Vec<Vec<u8>> = vec![];
+        let nsub = 1 + rng.below(3);
+        for _ in 0..nsub {
+            let first: String = match rng.below(8) {
+                0 => "4294967295".into(),
+                1 => "4294967294".into(),
+                2 => bt(rng).to_string(),
+                3 => "+3".into(),
+                _ => rng.range(0, 20).to_string(),
+            };
+            let k = rng.below(4) as usize;
+            let count: String = match rng.below(8) {
+                0 => bt(rng).to_string(),
+                1 => (k + 1).to_string(),
+                2 => "4294967295".into(),
+                _ => k.to_string(),
+            };
+            if rng.chance(1, 20) {
+                lines.push(format!("{} {} 7", first, count).into_bytes());
+            } else {
+                lines.push(format!("{} {}", first, count).into_bytes());
+            }
+            for _ in 0..k {
+                lines.push(entry(rng));
+            }
+            if rng.chance(1, 10) {
+                lines.push(vec![]);
+            }
+        }
+        let size: String = match rng.below(6) {
+            0 => bt(rng).to_string(),
+            1 => "4294967296".into(),
+            2 => "0".into(),
+            _ => "100000".into(),
+        };
+        match rng.below(if tier == Tier::Quick { 60 } else { 30 }) {
+            0 => {} // no trailer at all: EOF inside the section
+            1 => lines.push(b"trailer".to_vec()),
+            2 => lines.push(format!("<< /Size {} >>", size).into_bytes()),
+            3 => lines.push(format!("trailer << /Size {} >>", size).into_bytes()),
+            4 => {
+                lines.push(b"trailer".to_vec());
+                lines.push(b"<< /Root 1 0 R >>".to_vec());
+            }
+            5 => {
+                lines.push(b"trailer".to_vec());
+                lines.push(b"[ 1 2 ]".to_vec());
+            }
+            6 | 7 => lines.push(b"startxref".to_vec()),
+            _ => {
+                lines.push(b"trailer".to_vec());
+                lines.push(format!("<< /Size {} /Root 1 0 R >>", size).into_bytes());
+            }
+        }
+        let req = format!("xref {}", if lines.is_empty() { ".".into() } else { lines.iter().map(|l| hex(l)).collect::<Vec<_>>().join("/") });
+        cases.push(Case::new(req, format!("xref {} nt", if i % 2 == 0 { "a" } else { "b" })));
+    }
+}
+
+fn gen_small(rng: &mut Rng, tier: Tier, cases: &mut Vec<Case>) {
+    // object streams: /N, /First, offsets
+    let n = if tier == Tier::Quick { 250 } else { 5000 };
+    for _ in 0..n {
+        let k = rng.below(4) as usize;
+        let objs: Vec<Vec<u8>> = (0..k).map(|_| rand_token_bytes(rng, 2)).collect();
+        let mut offs = vec![];
+        let mut body = vec![];
+        for o in &objs {
+            offs.push(body.len() as i64);
+            body.extend_from_slice(o);
+            body.push(b' ');
+        }
+        let mut head = String::new();
+        for (j, o) in offs.iter().enumerate() {
+            let off = if rng.chance(1, 8) { bt(rng) } else { *o };
+            let num = if rng.chance(1, 10) { bt(rng) } else { 10 + j as i64 };
+            head.push_str(&format!("{} {} ", num, off));
+        }
+        let first = if rng.chance(1, 5) { bt(rng) } else { head.len() as i64 };
+        let nn = if rng.chance(1, 6) { bt(rng) } else { k as i64 + if rng.chance(1, 10) { 1 } else { 0 } };
+        let mut data = head.into_bytes();
+        data.extend(body);
+        cases.push(Case::new(format!("objstm {} {} {}", nn, first, hex(&data)), "objstm nt"));
+    }
+    for (n, first, d) in [("1", "4294967295", "10 1 true"), ("1", "4294967290", "10 6 true"), ("1", "4294967290", "10 5 true"), ("2", "1", "10 0 11 4294967295 1 2"), ("1", "-1", "10 1 1"), ("1", "-1", "10 0 1")] {
+        cases.push(Case::new(format!("objstm {} {} {}", n, first, hex(d.as_bytes())), "objstm directed nt"));
+    }
+    // stream /Length
+    for &l in BT.iter().chain([3i64, 4, 5, 1 << 20, 1 << 40, 1 << 50, 10_000_000_000_000].iter()) {
+        for avail in [0usize, 4, 100] {
+            cases.push(Case::new(format!("stmlen {} {}", l, avail), "stmlen nt"));
+        }
+    }
+    // /Rotate composition
+    for &r in BT.iter().chain([90i64, 180, 270, 360, 2147483557, 2147483558, -2147483648 + 4294967296].iter()) {
+        for a in [0, 90, 180, 270] {
+            cases.push(Case::new(format!("rot {} {}", r, a), "rot nt"));
+        }
+    }
+    // CMap calculate_offset
+    let m = if tier == Tier::Quick { 120 } else { 2000 };
+    for _ in 0..m {
+        let len = *rng.pick(&[1usize, 2, 2, 3, 4, 7, 8, 8, 9, 9, 10, 16]);
+        let mut start = vec![0u8; len];
+        let mut code = vec![0u8; len];
+        match rng.below(4) {
+            0 => {
+                start = rng.bytes(len);
+                code = start.clone();
+                let l = len - 1;
+                code[l] = code[l].saturating_add(rng.below(4) as u8);
+            }
+            1 => {
+                code[0] = 1 + rng.below(255) as u8;
+            }
+            2 => {
+                code[len - 1] = rng.next() as u8;
+                if len > 8 {
+                    code[len - 9] = rng.below(2) as u8;
+                }
+            }
+            _ => {
+                start[0] = rng.below(3) as u8;
+                code = start.clone();
+                code[len - 1] = 200;
+            }
+        }
+        cases.push(Case::new(format!("cmapoff {} {}", hex(&code), hex(&start)), "cmapoff nt"));
+    }
+    // page labels
+    for &s in BT.iter() {
+        for o in [0u32, 1, 2, 4294967295] {
+            cases.push(Case::new(format!("label {} {}", s, o), "label nt"));
+        }
+    }
+    // RC4 key lengths
+    for k in [0usize, 1, 5, 16, 32, 255, 256, 257] {
+        cases.push(Case::new(format!("rc4 {}", hex(&rng.bytes(k))), "rc4 nt"));
+    }
+    // /Prev chains
+    let m = if tier == Tier::Quick { 200 } else { 4000 };
+    for _ in 0..m {
+        let k = 1 + rng.below(6) as usize;
+        let spec: Vec<String> = (0..k)
+            .map(|_| match rng.below(10) {
+                0 => "x".to_string(),
+                1 => "h".to_string(),
+                2 | 3 => "_".to_string(),
+                _ => format!("p{}", rng.below(k as u64)),
+            })
+            .collect();
+        cases.push(Case::new(format!("prev {} {}", rng.below(k as u64), spec.join(",")), "prev nt"));
+    }
+    // page trees
+    for _ in 0..m {
+        let k = 1 + rng.below(8) as usize;
+        let kids = |rng: &mut Rng| -> String { (0..rng.below(4)).map(|_| rng.below(k as u64 + 2).to_string()).collect::<Vec<_>>().join(".") };
+        let mut parts = vec![kids(rng)];
+        for _ in 0..k {
+            parts.push(match rng.below(6) {
+                0 => "O".to_string(),
+                1 | 2 => format!("N{}", kids(rng)),
+                _ => "P".to_string(),
+            });
+        }
+        cases.push(Case::new(format!("tree {}", parts.join(";")), "tree nt"));
+    }
+}
+
+/// grammar-generated skeletons × boundary integers in every numeric slot × presets
+fn gen_explore(rng: &mut Rng, tier: Tier, cases: &mut Vec<Case>) {
+    let n = if tier == Tier::Quick { 260 } else { 4000 };
+    for _ in 0..n {
+        let slot = |rng: &mut Rng, normal: i64| -> String { if rng.chance(1, 7) { bt(rng).to_string() } else { normal.to_string() } };
+        let content: Vec<u8> = match rng.below(5) {
+            0 => b"BT /F1 12 Tf (Hello) Tj ET".to_vec(),
+            1 => rep_bytes(b"", b";", 200, b" q Q"),
+            2 => b"<~87cURD]j7BEbo80~>".to_vec(),
+            3 => b"uuuuu~>".to_vec(),
+            _ => b"q 1 0 0 1 0 0 cm Q".to_vec(),
+        };
+        let filt = match rng.below(6) {
+            0 => " /Filter /ASCII85Decode".to_string(),
+            1 => format!(" /Filter /FlateDecode /DecodeParms << /Predictor {} /Columns {} /Colors {} /BitsPerComponent {} >>", slot(rng, 12), slot(rng, 3), slot(rng, 1), slot(rng, 8)),
+            2 => " /Filter [/ASCIIHexDecode /ASCII85Decode]".to_string(),
+            3 => format!(" /Filter /LZWDecode /DecodeParms << /EarlyChange {} >>", slot(rng, 1)),
+            _ => String::new(),
+        };
+        let mut c5 = format!("<< /Length {}{} >>\nstream\n", slot(rng, content.len() as i64), filt).into_bytes();
+        c5.extend_from_slice(&content);
+        c5.extend_from_slice(b"\nendstream");
+        let kids = match rng.below(6) {
+            0 => "[3 0 R 3 0 R]".to_string(),
+            1 => "[2 0 R]".to_string(),
+            2 => "[3 0 R 6 0 R]".to_string(),
+            3 => "[99 0 R]".to_string(),
+            _ => "[3 0 R]".to_string(),
+        };
+        let objs = vec![
+            (1u32, b"<< /Type /Catalog /Pages 2 0 R >>".to_vec()),
+            (2, format!("<< /Type /Pages /Kids {} /Count {} >>", kids, slot(rng, 1)).into_bytes()),
+            (
+                3,
+                format!(
+                    "<< /Type /Page /Parent 2 0 R /MediaBox [0 0 {} {}] /Rotate {} /Contents 5 0 R /Resources << /Font << /F1 4 0 R >> >> >>",
+                    slot(rng, 612),
+                    slot(rng, 792),
+                    slot(rng, 0)
+                )
+                .into_bytes(),
+            ),
+            (4, b"<< /Type /Font /Subtype /Type1 /BaseFont /Helvetica >>".to_vec()),
+            (5, c5),
+            (6, format!("<< /Type /Pages /Parent 2 0 R /Kids [6 0 R 3 0 R 2 0 R] /Count {} >>", slot(rng, 2)).into_bytes()),
+        ];
+        let extra = match rng.below(5) {
+            0 => format!("/Prev {}", slot(rng, 0)),
+            1 => "/Prev 9".to_string(),
+            _ => String::new(),
+        };
+        let size = if rng.chance(1, 6) { bt(rng) } else { 7 };
+        let mut bytes = Pdf { objs }.classic(&extra, size);
+        if rng.chance(1, 5) {
+            for _ in 0..1 + rng.below(3) {
+                let k = rng.below(bytes.len() as u64) as usize;
+                bytes[k] = rng.next() as u8;
+            }
+        }
+        if rng.chance(1, 12) {
+            let l = rng.below(bytes.len() as u64) as usize;
+            bytes.truncate(l);
+        }
+        let h = hex(&bytes);
+        for pre in PRESETS {
+            cases.push(Case::new(format!("explore {} {}", pre, h), format!("explore skeleton {} nt", pre)));
+        }
+    }
+    // mutations of real files
+    let mut files: Vec<String> = vec![];
+    for dir in ["/repo/oxidize-pdf-core/tests/fixtures", "/repo/test-pdfs", "/repo/oxidize-pdf-core/tests/fixtures/fuzz-regressions"] {
+        if let Ok(rd) = std::fs::read_dir(dir) {
+            let mut v: Vec<_> = rd.filter_map(|e| e.ok()).map(|e| e.path()).collect();
+            v.sort();
+            for p in v {
+                let okext = p.extension().map(|e| e == "pdf" || e == "bin").unwrap_or(false);
+                let small = std::fs::metadata(&p).map(|m| m.len() > 0 && m.len() < 20_000).unwrap_or(false);
+                let s = p.to_string_lossy().to_string();
+                if okext && small && !s.contains(' ') {
+                    files.push(s);
+                }
+            }
+        }
+    }
+    let m = if tier == Tier::Quick { 120 } else { 3000 };
+    if !files.is_empty() {
+        for i in 0..m {
+            let f = &files[rng.below(files.len() as u64) as usize];
+            let len = std::fs::metadata(f).map(|m| m.len()).unwrap_or(1).max(1);
+            let nm = rng.below(3);
+            let muts: Vec<String> = (0..nm)
+                .map(|_| match rng.below(4) {
+                    0 => format!("b{}={:02x}", rng.below(len), rng.next() as u8),
+                    1 => format!("t{}", rng.below(len)),
+                    _ => format!("n{}={}", rng.below(60), bt(rng)),
+                })
+                .collect();
+            let pre = PRESETS[i % 5];
+            cases.push(Case::new(format!("xfile {} {} {}", pre, f, if muts.is_empty() { ".".into() } else { muts.join("+") }), format!("explore file {} nt", pre)));
+        }
+    }
+}
+
+fn gen(rng: &mut Rng, tier: Tier) -> Vec<Case> {
+    let mut cases = vec![];
+    gen_a85(rng, tier, &mut cases);
+    gen_pred(rng, tier, &mut cases);
+    gen_lex_obj(rng, tier, &mut cases);
+    gen_xrs(rng, tier, &mut cases);
+    gen_xref(rng, tier, &mut cases);
+    gen_small(rng, tier, &mut cases);
+    gen_explore(rng, tier, &mut cases);
+    cases
+}
+
+fn limits() -> Limits {
+    Limits { per_case: std::time::Duration::from_secs(4), rlimit_as: 4 << 30, stack: 8 << 20 }
+}
+
+/// Same command line and output as `harness_main`; `emit` spreads the isolated children over a few
+/// threads (requests are independent, the output keeps the generated order).
 fn main() {
-    harness_main(gen, run, Limits { per_case: std::time::Duration::from_secs(10), rlimit_as: 4 << 30, stack: 8 << 20 });
+    let args: Vec<String> = std::env::args().collect();
+    let is_emit = args.get(1).map(|s| s == "emit").unwrap_or(false);
+    if !is_emit || args.iter().any(|a| a == "--child") {
+        harness_main(gen, run, limits());
+        return;
+    }
+    let arg = |n: &str| args.iter().position(|a| a == n).and_then(|i| args.get(i + 1).cloned());
+    let out = arg("--out").unwrap_or_else(|| ".".into());
+    std::fs::create_dir_all(&out).expect("out dir");
+    let seed: u64 = arg("--seed").and_then(|s| s.parse().ok()).unwrap_or(0);
+    let tier = if arg("--tier").as_deref() == Some("thorough") { Tier::Thorough } else { Tier::Quick };
+    let mut cases: Vec<Case> = vec![];
+    if let Some(c) = arg("--corpus") {
+        let mut files: Vec<_> = std::fs::read_dir(&c).map(|d| d.filter_map(|e| e.ok().map(|e| e.path())).collect()).unwrap_or_default();
+        files.sort();
+        for f in files {
+            if f.extension().map(|e| e == "req").unwrap_or(false) {
+                if let Ok(text) = std::fs::read_to_string(&f) {
+                    for l in text.lines() {
+                        let l = l.trim_end();
+                        if l.is_empty() || l.starts_with('#') {
+                            continue;
+                        }
+                        cases.push(Case::new(l.split('\t').next().unwrap_or(""), "corpus nt"));
+                    }
+                }
+            }
+        }
+    }
+    let mut rng = Rng::new(seed);
+    cases.extend(gen(&mut rng, tier));
+    let clean = |s: &str| s.replace(['\t', '\n', '\r'], " ");
+    let reqs: Vec<String> = cases.iter().map(|c| clean(&c.req)).collect();
+    let nthreads: usize = std::env::var("C01_THREADS").ok().and_then(|s| s.parse().ok()).unwrap_or(6).max(1);
+    let mut answers: Vec<String> = vec![String::new(); reqs.len()];
+    let chunks: Vec<Vec<(usize, String)>> = (0..nthreads).map(|t| reqs.iter().enumerate().filter(|(i, _)| i % nthreads == t).map(|(i, r)| (i, r.clone())).collect()).collect();
+    let handles: Vec<_> = chunks
+        .into_iter()
+        .map(|ch| {
+            std::thread::spawn(move || {
+                let rs: Vec<String> = ch.iter().map(|(_, r)| r.clone()).collect();
+                let ans = run_isolated(&rs, &limits());
+                ch.into_iter().map(|(i, _)| i).zip(ans).collect::<Vec<_>>()
+            })
+        })
+        .collect();
+    for h in handles {
+        for (i, a) in h.join().expect("worker thread") {
+            answers[i] = a;
+        }
+    }
+    // A `timeout` must be a hang, not a stall of the (shared, loaded) machine: every timed-out
+    // request is run once more, alone in a fresh child, with three times the budget.
+    let again: Vec<usize> = (0..reqs.len()).filter(|i| answers[*i] == "timeout").collect();
+    let hs: Vec<_> = (0..nthreads)
+        .map(|t| {
+            let mine: Vec<(usize, String)> = again.iter().enumerate().filter(|(j, _)| j % nthreads == t).map(|(_, i)| (*i, reqs[*i].clone())).collect();
+            std::thread::spawn(move || {
+                let mut l = limits();
+                l.per_case *= 3;
+                mine.into_iter().map(|(i, r)| (i, run_isolated(&[r], &l).pop().unwrap_or_else(|| "timeout".into()))).collect::<Vec<_>>()
+            })
+        })
+        .collect();
+    for h in hs {
+        for (i, a) in h.join().expect("retry thread") {
+            answers[i] = a;
+        }
+    }
+    use std::io::Write;
+    let mut f = std::io::BufWriter::new(std::fs::File::create(std::path::Path::new(&out).join("cases.tsv")).expect("cases.tsv"));
+    for ((req, ans), c) in reqs.iter().zip(answers.iter()).zip(cases.iter()) {
+        writeln!(f, "{}\t{}\t{}", req, ans, clean(&c.tags)).unwrap();
+    }
+    f.flush().unwrap();
 }
